@@ -528,35 +528,37 @@ def _threads(w: W) -> None:
     if w.ec == secp256k1 and ch.draw(4, "thr.python-arm"):
         st.set_backend(False)  # with the bindings serving no table is ever built
     Q = w.uniform_point("thr.Q")
-    holder: dict[str, PreparedPoint] = {}
+    G = ref.G
+    shared: dict[str, Any] = {}  # what the threads race on: the point and its PreparedPoint
+
+    def aim(at: RefPoint) -> None:
+        st.clear_all_caches()
+        shared["Q"], shared["prep"] = _lib(at), PreparedPoint(_lib(at), w.ec)
+
     n_thr = 2 + ch.draw(2, "nthreads")
     lists: list[list[tuple[str, Callable[[], Any], RefPoint]]] = []
     for _ in range(n_thr):
-        calls = []
+        calls: list[tuple[str, Callable[[], Any], RefPoint]] = []
         for _ in range(1 + ch.draw(3, "ncalls")):
             kind = ch.weighted([("prepared", 4), ("mult-G", 2), ("mult-Q", 1), ("double", 2), ("multi", 2)], "thr.call")
             m, v = w.scalar("thr.m"), w.scalar("thr.v")
             if kind == "prepared":
-                calls.append((kind, lambda m=m: holder["prep"].mult(m), ref.mul(m, Q)))
+                calls.append((kind, lambda m=m: shared["prep"].mult(m), ref.mul(m, Q)))
             elif kind == "mult-G":
-                calls.append((kind, lambda m=m: mult(m, _lib(ref.G), w.ec), ref.mul(m, ref.G)))
+                calls.append((kind, lambda m=m: mult(m, _lib(G), w.ec), ref.mul(m, G)))
             elif kind == "mult-Q":
-                calls.append((kind, lambda m=m: mult(m, _lib(Q), w.ec), ref.mul(m, Q)))
+                calls.append((kind, lambda m=m: mult(m, shared["Q"], w.ec), ref.mul(m, Q)))
             elif kind == "double":
-                calls.append((kind, lambda m=m, v=v: double_mult_var(m, _lib(ref.G), v, _lib(Q), w.ec), ref.multi([m, v], [ref.G, Q])))
+                calls.append((kind, lambda m=m, v=v: double_mult_var(m, _lib(G), v, shared["Q"], w.ec), ref.multi([m, v], [G, Q])))
             else:
-                calls.append((kind, lambda m=m, v=v: multi_mult_var([m, v, 1], [_lib(ref.G), _lib(Q), _lib(ref.G)], w.ec), ref.multi([m, v, 1], [ref.G, Q, ref.G])))
+                calls.append((kind, lambda m=m, v=v: multi_mult_var([m, v, 1], [_lib(G), shared["Q"], _lib(G)], w.ec), ref.multi([m, v, 1], [G, Q, G])))
         lists.append(calls)
-
-    def cold() -> None:
-        st.clear_all_caches()
-        holder["prep"] = PreparedPoint(_lib(Q), w.ec)
-
-    cold()
+    # the step estimate comes from the same calls aimed at another point, so that Q's own tables are first built by the threads
+    aim(ref.add(Q, G) or G)
     res, est = count_steps(lambda: [fn() for cl in lists for _, fn, _ in cl], dedupe="op")
     if res[0] != "ok":
-        raise RunAborted(f"sequential baseline raised {res[1]!r}")
-    cold()
+        raise RunAborted(f"sequential rehearsal raised {res[1]!r}")
+    aim(Q)
     strat_kind = ch.weighted([("pct", 5), ("unif", 3), ("stagger", 2)], "strategy")
     strategy: dict[str, Any] = {"kind": strat_kind}
     if strat_kind == "pct":
